@@ -15,10 +15,12 @@ open Dblib
 
 /-- the accessors of the clock reading, and the two constructors the decoders use on UTC values -/
 def fieldAccessors : List String :=
-  ["Add", "AddDate", "Day", "Hour", "Minute", "Month", "Nanosecond", "Second", "Year"]
+  ["Add", "AddDate", "Day", "Hour", "Minute", "Month", "Nanosecond", "Second", "Year",
+   -- the same fields several at a time, or derived from them alone
+   "Date", "Clock", "YearDay", "Weekday"]
 
 /-- the codecs look at a time only through the fields of its clock reading — nothing that depends on
-its location or on the instant it denotes (`Sub`, `Unix…`, `In`, `Location`, `Truncate`, `Date`, …) —
+its location or on the instant it denotes (`Sub`, `Unix…`, `In`, `Location`, `Truncate`, `Equal`, …) —
 and construct times in UTC only -/
 theorem c05_clock_reading_only :
     Gen.TimeUse.timeMethods.all (fun m => fieldAccessors.contains m) = true ∧
